@@ -120,9 +120,9 @@ def main(tier, seed):
     return driver.run_check(
         PID, shard, params, tier, seed,
         min_evaluations=4000 if tier == "quick" else 100000,
-        rule=RULE,
+        rule=RULE, witness_fn=driver.program_witness,
         assumptions=["by-reference passing is judged as copy-in/copy-out with write-back left to right after return, as the property states",
-                     "by-reference arguments whose subscript has side effects are not generated"],
+                     "by-reference arguments whose subscript has side effects (KF-C03-2) and REDIM of shared arrays inside subprograms (KF-C03-1) are pinned known findings and not generated"],
     )
 
 
